@@ -566,3 +566,45 @@ Proof.
   exists t. split; [exact A|]. split; [exact B|]. intros Hc. rewrite (D Hc). unfold k.
   rewrite dispatch_last_history_free. reflexivity.
 Qed.
+
+(* ---------------- round 7: the key of an exception-view lookup, the request interface of a route ---------------- *)
+Lemma facts_excview_route : excview_uses_combined = true /\ route_iface_created_once = true.
+Proof. split; reflexivity. Qed.
+
+(* what invoke_exception_view looks up with: the combined interface of the request's own request type *)
+Lemma lookup_iface_spec : forall cl rq,
+  lookup_iface cl rq = if N.eqb cl 1 then combined_iface rq else rq.
+Proof. intros. unfold lookup_iface. destruct facts_excview_route as [-> _]. reflexivity. Qed.
+
+(* ---------------- a re-initialisation interleaved with a lookup ----------------
+   Registry.__init__ clears the cache BEFORE Components.__init__ drops the registrations.  A lookup that runs
+   between the two (another thread, while testing.tearDown re-initialises a live registry) caches a view that
+   is gone a moment later: the ClearFirst schedule of the register program, for the init program.  This is
+   outside the property's quantifier (it interleaves lookups with registrations, not with re-initialisations);
+   the refutation documents why re-initialisations are modelled in idle states only. *)
+Lemma reinit_interleaved_refuted :
+  ~ reinit_interleaved_claim (std_lookup Local true) (std_register Swap) [INewLock; IClear Swap; IResetAdapters].
+Proof.
+  intros H.
+  pose proof (H sro1 R1 [INewLock; IClear Swap] [IResetAdapters] (SpawnLookup k1 :: steps 0 40) k1 (steps 1 40) eq_refl) as H.
+  cbv zeta in H.
+  match type of H with
+  | ?a -> ?b -> ?c -> _ =>
+      assert (A : a) by (vm_compute; reflexivity);
+      assert (B : b) by (vm_compute; reflexivity);
+      assert (C : c) by (vm_compute; reflexivity);
+      specialize (H A B C)
+  end.
+  destruct H as (t & A1 & _ & _ & D).
+  vm_compute in A1. inversion A1. subst t. vm_compute in D. specialize (D eq_refl). discriminate D.
+Qed.
+
+(* the same schedule with the two steps the other way round (registrations dropped first, cache cleared last --
+   the order of the register program): the lookup that ran in between cached nothing that survives *)
+Example reinit_interleaved_reset_first :
+  let st0 := reinit [INewLock; IResetAdapters] (init R1) in
+  let st1 := reinit [IClear Swap] (exec sro1 KeyFull lookup_prog register_prog (SpawnLookup k1 :: steps 0 40) st0) in
+  let st2 := exec sro1 KeyFull lookup_prog register_prog (SpawnLookup k1 :: steps 1 40) st1 in
+  R st1 = [] /\ heap st1 (cur st1) = [] /\
+  exists t, threads st2 1 = Some t /\ cont t = [] /\ tres t = Some [].
+Proof. vm_compute. split; [reflexivity|]. split; [reflexivity|]. eexists. repeat split; reflexivity. Qed.
